@@ -4,6 +4,7 @@ from __future__ import annotations
 import numpy as np
 
 from .. import estim
+from ..core import mix
 
 INVS = ("ChaoNotBelowObserved", "OverlapSymmetric", "VarChaoExpanded")
 
@@ -33,11 +34,15 @@ def coll(codes, kind, vals, variant=0):
     if kind == "series":
         return pd.Series(items, dtype=object, index=[2 * i + 1 for i in range(len(items))])
     if kind == "ndarray":
-        return np.array(items, dtype=object)
+        arr = np.empty(len(items), dtype=object)        # one-dimensional whatever the elements are
+        for i, x in enumerate(items):
+            arr[i] = x
+        return arr
     raise KeyError(kind)
 
 
-VALS = [["CASSF", "CASSY", "CAWF", "x"], [10, 20, 30, 40]]
+# element families: strings, numbers, paired-chain clonotypes as tuples (equal lengths), numbers next to their digit strings
+VALS = [["CASSF", "CASSY", "CAWF", "x"], [10, 20, 30, 40], [("CAV", "CASSL"), ("CAV", "CASSP"), ("CAI", "CASSL"), ("CASSL", "CAV")], [1, "1", 2, "2"]]
 
 
 def judge_fof(ctx, n, res, rp):
@@ -55,7 +60,7 @@ def judge_fof(ctx, n, res, rp):
 
 def judge_sets(ctx, a, b, res, rp, variant):
     import pyrepseq as prs
-    vals = VALS[variant % 2]
+    vals = VALS[variant % len(VALS)]
     for cont in ("list", "set", "series", "ndarray"):
         A, B = coll(a, cont, vals, variant), coll(b, cont, vals, variant + 1)
         has_missing = 0 in a or 0 in b
@@ -92,7 +97,7 @@ def run(ctx):
     for k, doc in enumerate(ctx.sample([d for d in res.printed if "kind" in d], 200000), 1):
         if q and k % 2:
             continue
-        items.append(("sets", k, doc))
+        items.append(("sets", mix(k), doc))
     res.printed = []
     ctx.parallel(items, _replay_item, chunk=1000)
     ctx.exhaustive = True
